@@ -152,5 +152,51 @@ def nstepsF (tf t0 dt : Float) : Nat :=
 documented negation witness. -/
 def nstepsLegacyF (tf t0 dt : Float) : Nat := ((tf - t0) / dt).toUInt64.toNat
 
+/-! ### solvers with a clock (time-dependent Hamiltonians)
+
+`BaseSolver` keeps its own time `t`; `solver(state)` reads the Hamiltonian at times derived from
+the CURRENT `t` (the exponential and Trotter solvers at `t` itself — the Hamiltonian is frozen over
+the step —, the Runge–Kutta solvers at their stage times) and then advances the clock
+(`self.t += self.dt`).  `execute` sets `solver.t = start_time` first. -/
+
+inductive SolverKind where
+  | exp | rk4 | rk45
+  deriving DecidableEq, Repr
+
+/-- the times at which one solver step started at clock `t` reads the Hamiltonian, in the order
+in which the values are USED (`k1, k2, …`): `Exponential` / `TrotterizedExponential`: `t`;
+`RungeKutta4`: `t, t + dt/2, t + dt/2, t + dt`; `RungeKutta45`: `t, t + dt/4, t + 3dt/8,
+t + 12dt/13, t + dt, t + dt/2`.  Written with the operations of the code (`3 * dt / 8.0` is
+`(3 * dt) / 8`) so that over `Float` the values are bit-identical; `nat` is the cast of the
+literals. -/
+def stageTimes {T : Type} [Add T] [Mul T] [Div T] (nat : Nat → T) (k : SolverKind) (t dt : T) :
+    List T :=
+  match k with
+  | .exp => [t]
+  | .rk4 => [t, t + dt / nat 2, t + dt / nat 2, t + dt]
+  | .rk45 => [t, t + dt / nat 4, t + nat 3 * dt / nat 8, t + nat 12 * dt / nat 13, t + dt,
+      t + dt / nat 2]
+
+/-- one call `solver(state)` of a solver with a clock: the step operator of the current time is
+applied and the clock advances. -/
+def timedStep {T V : Type} (adv : T → T) (U : T → V → V) (p : T × V) : T × V :=
+  (adv p.1, U p.1 p.2)
+
+/-- `normalize_state` does not touch the clock. -/
+def timedNorm {T V : Type} (norm : V → V) (p : T × V) : T × V := (p.1, norm p.2)
+
+/-- the ordered composition of `n` steps started at clock `t`: the step of time `t` first, then
+that of `adv t`, … -/
+def timedIter {T V : Type} (adv : T → T) (U : T → V → V) : Nat → T → V → V
+  | 0, _, v => v
+  | n + 1, t, v => timedIter adv U n (adv t) (U t v)
+
+/-- what `StateEvolution.execute` does with a solver of kind `k`, observed through the times at
+which the Hamiltonian is read: the state is the log of reads. -/
+def readLog {T : Type} [Add T] [Mul T] [Div T] (nat : Nat → T) (k : SolverKind) (cb : Bool)
+    (n : Nat) (t0 dt : T) : T × List T :=
+  (execute (timedStep (fun t => t + dt) (fun t log => log ++ stageTimes nat k t dt))
+    (timedNorm id) cb n (t0, [])).1
+
 end Evo
 end QV
